@@ -114,7 +114,7 @@ def modes():
 
 def main(argv):
     tier = argv[argv.index("--tier") + 1] if "--tier" in argv else "quick"
-    only = argv[argv.index("--only") + 1].split(",") if "--only" in argv else ["C01", "C07", "C08", "C10", "C11", "C13", "C14", "C18", "C20"]
+    only = argv[argv.index("--only") + 1].split(",") if "--only" in argv else ["C01", "C07", "C08", "C09", "C10", "C11", "C13", "C14", "C18", "C20"]
     t0 = time.time()
     failures, samples, cases = [], [], 0
 
@@ -185,6 +185,38 @@ def main(argv):
                         fail("roundtrip#fixpoint_text", wit, dict(first=text, second=str(t2)))
                 if len(samples) < 2:
                     samples.append(dict(program=name, std=std, options=kw, nodes=len(all_nodes(tree))))
+    if "C09" in only:
+        # the same source read again in the same process (with the same parser object, with a new one, after another
+        # source) gives the same tree and text: whatever is kept between parses (memoised helpers, caches) does not show
+        from fparser.two.parser import ParserFactory as _PF9
+        from fparser.common.readfortran import FortranStringReader as _FSR9
+        from checks import enum_registries as ER9
+        import re as _re9
+        unblock = lambda r: _re9.sub(r"'block:\d+'", "'block:N'", r)      # noqa: E731
+        sources = [(n, t) for n, t in CATALOGUE.items() if n != "include_cpp"]
+        sources += [("literal_then_code_then_comment", "program q\n  print *, 'n is', n  ! show the value\n  s = 'a''b' // t ! tail\n  call f('x', y) ! c\nend program q\n"),
+                    ("continued_literals", "program q\n  print *, 'alpha &\n       &beta', k  ! first\n  msg = \"two ''kinds''\" // 'x' ! second\nend program q\n")]
+        sources += [("exec:%d" % i, "program p\n  %s ! note %d\nend program p\n" % (st, i)) for i, st in enumerate(ER9.EXEC) if "\n" not in st][:: (1 if tier == "thorough" else 3)]
+        for std in ("f2003", "f2008"):
+            for kw in (dict(), dict(ignore_comments=False)):
+                first = {}
+                shared_parser = _PF9().create(std=std)
+                for rnd in (0, 1, 2):
+                    for name, src in sources:
+                        cases += 1
+                        parser = shared_parser if rnd == 1 else _PF9().create(std=std)
+                        try:
+                            t = parser(_FSR9(src, **kw))
+                            got = (str(t), unblock(repr(t)))
+                        except FortranSyntaxError as e:
+                            got = ("FortranSyntaxError", str(e)[:80])
+                        except BaseException as e:  # noqa
+                            got = (type(e).__name__, str(e)[:80])
+                        if name not in first:
+                            first[name] = got
+                        elif got != first[name]:
+                            fail("history#same_source_same_result_on_every_parse", dict(program=name, std=std, options=kw, round=rnd, source=src),
+                                 dict(first=first[name][0][:300], now=got[0][:300]))
     if "C10" in only:
         # trees built through include files: the same file included more than once (a COMMON header used by several
         # subprograms), nested includes, and the same file in two parses - every inclusion has its own nodes
@@ -322,7 +354,10 @@ def main(argv):
                 "x = ((a + b) * (c - d)) ** (e)", "print '(a)', f(g(1), (2))", "read (unit=5, fmt='(i3)') (v(i), i = 1, 3)"]
         mods = ["interface operator(+)\n  module procedure f\nend interface", "use m2, only: operator(.eq.), assignment(=)",
                 "procedure(real), pointer :: pp => null()", "type, extends(base) :: t2\n  integer :: k\nend type t2", "integer, dimension(size(a, 1)) :: b"]
-        bases = [("base", base)] + [("exec:%d" % i, "program p\n  %s\nend program p\n" % x) for i, x in enumerate(ER2.EXEC + more) if "(" in x] + \
+        # statements joined by ';' (the reader splits them before the parser sees them)
+        semi = ("program sc\n  real :: a, b(2)\n  a = (1.0 + a); b(1) = a\n  b(2) = a * (a + 1); a = f(b(1), (a))\n  if (a > 0) then; b(2) = (a); end if\n"
+                "  call s(a, (b(1))); call t((a))\nend program sc\n")
+        bases = [("base", base), ("semicolons", semi)] + [("exec:%d" % i, "program p\n  %s\nend program p\n" % x) for i, x in enumerate(ER2.EXEC + more) if "(" in x] + \
                 [("spec:%d" % i, "module m\n  %s\nend module m\n" % x) for i, x in enumerate(ER2.SPEC + mods) if "(" in x]
         for bname, btext in bases:
             lines = btext.splitlines()
@@ -475,20 +510,21 @@ def main(argv):
                 decorations = [[], ["\x0c", "  ! page\x0bbreak \x1c \x85 \u2028 here"],
                                ["  integer :: zz1, &", "  ! comment inside the continuation", "", "     zz2, &", "", "     zz3"]]
                 # a continued offending statement followed by comment lines: the location is the line the statement ends on
-                for tail in ([], ["  ! a comment after the statement", "! another"]):
+                for tail in ([], ["  ! a comment after the statement", "! another"], ["", ""], ["", "  ! a comment after a blank line", ""]):
                     glines = ["  @@ not &", "     fortran &", "     at all @@"]
                     src = "\n".join(lines[:li] + glines + tail + lines[li + 1:]) + "\n"
                     cases += 1
                     lineno = li + len(glines)
-                    try:
-                        parse(src, "f2003")
-                        fail("error#garbage_rejected", dict(source=src), "accepted")
-                    except FortranSyntaxError as e:
-                        want = "at line %d\n>>>%s\n" % (lineno, glines[-1])
-                        if not str(e).startswith(want):
-                            fail("error#names_offending_line", dict(source=src, line=lineno, continued=True, comments_after=bool(tail)), dict(message=str(e)[:120], expected_prefix=want))
-                    except BaseException as e:  # noqa
-                        fail("error#garbage_rejected", dict(source=src), "raised %s" % type(e).__name__)
+                    for ckw in (dict(), dict(ignore_comments=False)):
+                        try:
+                            parse(src, "f2003", **ckw)
+                            fail("error#garbage_rejected", dict(source=src), "accepted")
+                        except FortranSyntaxError as e:
+                            want = "at line %d\n>>>%s\n" % (lineno, glines[-1])
+                            if not str(e).startswith(want):
+                                fail("error#names_offending_line", dict(source=src, line=lineno, continued=True, lines_after=tail, options=ckw), dict(message=str(e)[:120], expected_prefix=want))
+                        except BaseException as e:  # noqa
+                            fail("error#garbage_rejected", dict(source=src), "raised %s" % type(e).__name__)
                 # blank lines (and a cpp directive at the top of the file) around the offending statement do not move the location
                 for head_lines, after in (([], ["", ""]), (["#define VERIF 1"], ["", "", ""]), (["! leading comment", ""], [""])):
                     src = "\n".join(head_lines + lines[:li] + ["  @@ not fortran @@"] + after + lines[li + 1:]) + "\n"
